@@ -296,7 +296,6 @@ func runC09(r *mon.Run) {
 	}
 	c09Sharing(r)
 	c09NegControls(r)
-	c09RaceLog(r)
 	r.Sample(map[string]interface{}{"job": jobs[0].desc()})
 	r.Sample(map[string]interface{}{"job": jobs[len(jobs)-1].desc()})
 }
@@ -386,10 +385,13 @@ func c09NegControls(r *mon.Run) {
 	})
 }
 
-// c09RaceLog reads what the race detector reported for this process (GORACE log_path set by run.sh).
-func c09RaceLog(r *mon.Run) {
+// raceLog reads what the race detector reported for this process (GORACE log_path set by run.sh). It runs
+// at the end of every check whose binary was built with -race (always C09; C08 and C20 in the thorough tier).
+func raceLog(r *mon.Run, required bool) {
 	if !raceEnabled {
-		r.Inconclusive("this binary was not built with -race")
+		if required {
+			r.Inconclusive("this binary was not built with -race")
+		}
 		return
 	}
 	logPath := ""
